@@ -11,7 +11,7 @@ from __future__ import annotations
 
 from fractions import Fraction
 
-from .terms import FALSE, NONE, SHOW_HOOKS, TRUE, T, const, const_value, glob, mk, show
+from .terms import FALSE, NONE, SHOW_HOOKS, TRUE, T, const, const_value, contains, glob, mk, show
 
 # ----------------------------------------------------------------------------- polynomials
 
@@ -450,6 +450,10 @@ class Canon:
                 return c
             if x is FALSE and y is TRUE:
                 return self._not(c)
+            # with a boolean test c and a boolean alternative: `if c: return False; return x` is `not c and x`, `x if c else False`
+            # is `c and x` (value-equal, not only truth-equal, because both sides are booleans)
+            if _is_boolean(c) and (x is FALSE or y is FALSE) and _is_boolean(y if x is FALSE else x):
+                return self.canon(mk("and", ((mk("not", c), y) if x is FALSE else (c, x))))
             if c.op == "cmp" and c.args[0] in ("is not", "!=", "not in", "<="):
                 return mk("ite", self._not(c), y, x)
             if c.op == "not":
@@ -748,9 +752,28 @@ class Canon:
             return self._num(self._as_rat(cargs[0]).pow(2))
         if name in TRANSPARENT_FN and len(cargs) == 1 and not ckw:
             return cargs[0]
+        if name in ("array", "asarray") and len(cargs) == 1 and ckw and {k_ for k_, _v in ckw} <= {"dtype", "order", "copy"}:
+            # np.array(x, dtype=np.result_type(x, ...), order="C"): the same values in a wider dtype / another memory layout
+            dt = dict(ckw).get("dtype")
+            if dt is None or (dt.op in ("fn", "call") and "result_type" in show(dt, maxdepth=2)[:40] and contains(dt, lambda s_: s_ is cargs[0])):
+                return cargs[0]
         if name == "T" and self.transparent_T and len(cargs) == 1:
             return cargs[0]
         return mk("fn", name, *cargs, ckw) if ckw else mk("fn", name, *cargs)
+
+
+def _is_boolean(t: T) -> bool:
+    """the term is a bool whatever its operands are (comparison, negation, bool(), isinstance, and / or of those)"""
+    if t.op in ("cmp", "not"):
+        return t.op == "not" or t.args[0] not in ()
+    if t is TRUE or t is FALSE:
+        return True
+    if t.op in ("and", "or"):
+        return all(_is_boolean(x) for x in t.args[0])
+    if t.op == "call" and t.args[0].op == "global" and t.args[0].args[0] in ("builtins.isinstance", "builtins.bool", "builtins.hasattr",
+                                                                              "builtins.callable", "builtins.issubclass"):
+        return True
+    return False
 
 
 def _lit(t: T):
